@@ -141,6 +141,13 @@ def basis_spline(  # pylint: disable=dangerous-default-value  # always replaced 
             knots_x = x
     else:
         knots_x = x
+        if extrapolation is SplineExtrapolation.EXTEND and "knots" not in _state:
+            # Knots are placed at quantiles of the values inside the bounds (as
+            # for the other modes, and as R does); quantiles of out-of-range
+            # values could fall outside the bounds.
+            locs = (x >= lower_bound) & (x <= upper_bound)
+            if not numpy.all(locs):
+                knots_x = x[locs]
 
     # Prepare knots
     if "knots" not in _state:
